@@ -33,6 +33,9 @@ def _item(draw, idn):
         it["c"] = draw(st.sampled_from(VC))
     if draw(st.integers(0, 2)) == 0:
         it["d"] = draw(st.sampled_from(VA))
+    if draw(st.integers(0, 3)) == 0:
+        # same keys, another insertion order (plans keep the order: replays do not sort keys)
+        it = {k: it[k] for k in draw(st.permutations(list(it)))}
     return it
 
 
@@ -99,6 +102,8 @@ def _op(draw, counter):
             op["items"].append(draw(_item(100 + counter[0])))
         if name == "extend":
             op["as_list"] = draw(st.booleans())
+            # list.extend takes any iterable: tuples, one-shot generators, map objects, AttributeDicts in a generator
+            op["form"] = draw(st.sampled_from(["list", "lod", "tuple", "generator", "map", "generator_of_attrdicts", "reversed"]))
     elif name == "insert":
         counter[0] += 1
         op["item"] = draw(_item(100 + counter[0]))
@@ -291,7 +296,22 @@ def real_apply(real, op):
         return real.append(dict(op["item"]))
     if name == "extend":
         other = [dict(x) for x in op["items"]]
-        return real.extend(other if op["as_list"] else di.ListOfDicts(other))
+        form = op.get("form", "list" if op["as_list"] else "lod")
+        if form == "lod":
+            arg = di.ListOfDicts(other)
+        elif form == "tuple":
+            arg = tuple(other)
+        elif form == "generator":
+            arg = (x for x in other)
+        elif form == "map":
+            arg = map(dict, other)
+        elif form == "generator_of_attrdicts":
+            arg = (x for x in di.ListOfDicts(other))
+        elif form == "reversed":
+            arg = reversed(other[::-1])
+        else:
+            arg = other
+        return real.extend(arg)
     if name == "add":
         return real + di.ListOfDicts([dict(x) for x in op["items"]])
     if name == "insert":
